@@ -261,7 +261,13 @@ func cmdHoldemDeal(args []string) {
 		used := map[string]bool{}
 		var board []string
 		lo := rankOf[base[0][1]] // lowest rank of the deck
-		switch r.Intn(7) {
+		switch r.Intn(8) {
+		case 5: // three of a suit and a pair: one player can hold a flush AND a full house (they rank differently in the two tables)
+			board = pick(func(c string) bool { return c[0] == suit }, 3, used)
+			if len(board) > 0 {
+				pr := board[r.Intn(len(board))][1]
+				board = append(board, pick(func(c string) bool { return c[1] == pr }, 1, used)...)
+			}
 		case 0: // monotone board
 			board = pick(func(c string) bool { return c[0] == suit }, 5, used)
 		case 1: // paired / trips / quads on board
@@ -281,7 +287,17 @@ func cmdHoldemDeal(args []string) {
 		holes := make([][]string, n)
 		for i := 0; i < n; i++ {
 			var h []string
-			switch r.Intn(4) {
+			switch r.Intn(5) {
+			case 4: // half suited with the board, half ranks of the board (flush and full house in one hand)
+				h = pick(func(c string) bool { return c[0] == suit }, holeN/2, used)
+				h = append(h, pick(func(c string) bool {
+					for _, b := range board {
+						if b[1] == c[1] {
+							return true
+						}
+					}
+					return false
+				}, holeN-len(h), used)...)
 			case 0: // suited with the board's dominant suit
 				h = pick(func(c string) bool { return c[0] == suit }, holeN, used)
 			case 1: // ranks of the board (sets, full houses, quads)
